@@ -1,34 +1,78 @@
 """C13 — obiclean graph is exact and identical for any worker count."""
-import json, os, glob, re
+import json, os, glob, re, math
+from fractions import Fraction
 import vlib
 
-PROPS = ["C13/Props.v"]
+PROPS = ["C13/Props.v", "C13/PropsFloat.v"]
 META = dict(
     text="Rocq theorems over an executable model of pkg/obitools/obiclean (D1Or0 kernel, stable sort by count, row-wise pair loop, the two "
          "worker pools as a transition system whose shared operation is the son-counter increment, atomic or read-then-write; reweighting, "
-         "ratio filter, status, head flags): a son is linked to a father exactly when the father is strictly more abundant and the sequences "
-         "are one substitution or one indel apart, the edge carries that edit, status i/h/s and the head flag are exact, the weights are the "
-         "unique solution of the propagation equation, and every complete run of any number of workers under every schedule ends in the same "
-         "graph when the increment is atomic (for every distance), while a 2-worker schedule loses an increment and changes a status when it "
-         "is not (the original code; repaired by a fix: commit). Every run rebuilds the harness from the working tree, builds the graphs of "
-         "generated data sets (stars, chains, ties, homopolymer indels, all sequences over small alphabets) with 1..32 workers x repetitions "
-         "through the real functions, through CLIOBIClean and through the built obiclean command, checks them against a direct Python "
-         "oracle and against the model evaluated by vm_compute, and runs the -race build: a race report whose access is in package obiclean "
-         "is raised as a violation.",
+         "ratio filter, status; the data set split by sample and the annotations written on every sequence): a son is linked to a father "
+         "exactly when the father is strictly more abundant and the sequences are one substitution or one indel apart, the edge carries that "
+         "edit, status i/h/s and the head flag are exact, the weights are the unique solution of the propagation equation, and every complete "
+         "run of any number of workers under every schedule ends in the same graph when the increment is atomic (for every distance), while a "
+         "2-worker schedule loses an increment and changes a status when it is not (witnesses for both pools; the original code, repaired). "
+         "Round 2: the --distance > 1 pass is exact for every kernel that is exact inside its band (the model's LCS dynamic program is proved "
+         "to compute the optimum over all global alignments of an inductive relation, lcs_d = alignment length - lcs); its tie rule (links to "
+         "every later node, no abundance test, ties by position in the loaded data set) and 'weights are those of the one-difference graph' "
+         "are theorems; per-sample split, obiclean_status/weight per sample, union of the mutation maps, obiclean_head and the four counts "
+         "are modelled and proved; the float64 ratio test and weight rounding are proved (Flocq) equal to the model's rational arithmetic "
+         "under stated bounds, non-dyadic ratios included. Every run rebuilds the harness from the working tree, builds the graphs of "
+         "generated data sets (stars, deep chains, ties everywhere, top-abundance chains, samples of >= 32 x workers sequences, homopolymer "
+         "indels, all sequences over small alphabets) with 1..32 workers x repetitions through the real functions, through CLIOBIClean (also "
+         "under permuted batch arrival histories) and through the built obiclean command, checks them against a direct Python oracle and "
+         "against the model evaluated by vm_compute (per sample and for the whole data set), and runs the -race build: a race report whose "
+         "access is in package obiclean is raised as a violation.",
     note="Trusted: Coq kernel + vm_compute, Go race detector, harness and generators. Go scheduler/channels/WaitGroup are modelled as "
-         "nondeterministic choice of the next worker; the increment under the mutex is modelled as one indivisible step. The FastLCSScore "
-         "kernel of the distance>1 extension is modelled by a plain LCS dynamic program (its exactness is property C09); the extension "
-         "pass is in the model, in the correspondence and in the schedule-independence theorem, its exactness is not a theorem (the "
-         "property demands only schedule independence there). float64 rounding of weights / the ratio test are modelled by exact rational "
-         "arithmetic (counts < 2^26); the correspondence uses dyadic ratios, other ratios go through the Python oracle only.")
+         "nondeterministic choice of the next worker; the increment under the mutex is modelled as one indivisible step. That the real banded "
+         "kernel FastLCSScore is exact inside its band is the hypothesis of C13_extended_edges_exact (checked by property C09 and, on every "
+         "run here, by the correspondence of the distance 2/3 cases). Float arithmetic: C13_ratio_test_float_exact (w_father * Q <= 2^52) and "
+         "C13_round_div_float_exact (w * count < 2^52) justify the exact rationals of the model at distance 1 for any decimal ratio P/Q; they "
+         "rest on the axioms of the Coq real numbers (Flocq) and on Go's `/` being the IEEE-754 correctly rounded quotient (C13_b64_ratio_test ties "
+         "the statement to Flocq's binary64 Bdiv/Bleb); at distance 2 the float test is proved exact off the boundary w_son/w_father = (P/Q)^2 "
+         "(C13_ratio_test_d2_float_exact_off_boundary, math.Pow(r,2) taken as the rounded square); samples with an edge exactly on "
+         "w_son/w_father = (P/Q)^dist, dist >= 2, are left to the float oracle (counted in the evidence); math.Pow(r,3) is modelled exactly. Findings: lost son-counter updates (fixed, round 1); Load returned the batches "
+         "in arrival order, which made --distance > 1 outputs differ from run to run through the tie rule (fixed, round 2). Observations (not "
+         "against C13): no reweighting after the extension; dead getters HeadCount/InternalCount/SingletonCount always return 0.")
 TRUSTED = ["Go race detector: absence of a report on obiclean state is taken as 'the increment is Atomic' (model parameter inc_kind)",
-           "float64 weight rounding / ratio test modelled with exact rationals (generated counts are small, ratios dyadic in the correspondence)",
-           "FastLCSScore (distance > 1) is modelled by a plain LCS dynamic program (max matches, then max mismatch columns), a/c/g/t symbols only; "
-           "its agreement with the banded Go kernel is checked by the correspondence and the Python oracle, not proved (property C09)",
-           "buildSamples (split of the data set by sample) is done by the Python renderer: the Coq cases are per sample"]
+           "kernel_exact_in_band for the real obialign.FastLCSScore (hypothesis of C13_extended_edges_exact; discharged for the model's plain DP by "
+           "C13_model_kernel_exact_in_band; for the Go kernel it is property C09's obligation and is exercised here by the distance 2/3 correspondence), "
+           "a/c/g/t symbols only",
+           "IEEE-754: Go float64 division = Flocq round-to-nearest-even of the exact quotient, int->float64 exact below 2^53, math.Round exact, "
+           "math.Pow(r, 1) = r; Coq Reals axioms (ClassicalDedekindReals, functional extensionality, classic) for the two theorems of PropsFloat.v only",
+           "math.Pow(r, 2) = correctly rounded r*r (Go: frexp, one rounded product of the mantissas, ldexp): with it C13_ratio_test_d2_float_exact_off_boundary "
+           "proves the distance-2 test exact off the boundary w_son/w_father = (P/Q)^2 (w_father * Q^2 <= 2^50); math.Pow(r, 3) is modelled by the exact "
+           "rational power; samples with an edge exactly on the boundary (dist >= 2) are excluded from the Coq correspondence (float oracle only)",
+           "ids of the sequences of a data set are distinct (find_node looks a node up by id)"]
 
 ALPH = "acgt"
-DYADIC = {1.0: (1, 1), 0.5: (1, 2), 0.25: (1, 4), 0.75: (3, 4), 0.125: (1, 8)}
+RATIOS = [1.0, 1.0, 0.5, 0.25, 0.75, 0.125, 0.1, 0.05, 0.2, 0.3, 0.7]
+
+
+def ratio_pq(r):
+    """the decimal ratio typed by the user as an exact fraction P/Q (repr of the float = the shortest decimal)"""
+    f = Fraction(repr(r))
+    return f.numerator, f.denominator
+
+
+def go_pow(x, n):
+    """math.Pow(x, n) of Go for a small positive integer n and 0 < x <= 1: frexp, square-and-multiply on the mantissa
+    (every product rounded), ldexp; Pow(x, 1) = x"""
+    if n == 1 or x == 1.0:
+        return x
+    x1, xe = math.frexp(x)
+    a1, ae, i = 1.0, 0, n
+    while i:
+        if i & 1:
+            a1 *= x1
+            ae += xe
+        x1 *= x1
+        xe <<= 1
+        if x1 < 0.5:
+            x1 += x1
+            xe -= 1
+        i >>= 1
+    return math.ldexp(a1, ae)
 RACE_PKG = "pkg/obitools/obiclean."
 
 
@@ -102,6 +146,46 @@ def gen_dataset(rng, kind, size):
         for _ in range(size + 1):
             seqs.append((pool[-1], {s: rng.choice([3, 3, 3, 4]) for s in samples}))
             pool.append(mutate1(rng, rng.choice(pool)))
+    elif kind == "deepchain":
+        # chains longer than 2: the weights flow over several levels; every level has low-count leaves and ties
+        s0 = rseq(rng, max(L, 6))
+        cnt = rng.choice([5000, 100000, 2 ** 20])
+        seen = {s0}
+        level = s0
+        for depth in range(rng.randrange(3, 8)):
+            seqs.append((level, {x: cnt for x in samples}))
+            for _ in range(rng.randrange(0, 1 + max(1, size // 6))):
+                v = mutate1(rng, level)
+                if v not in seen:
+                    seen.add(v)
+                    seqs.append((v, {x: rng.choice([1, 1, 2, 3]) for x in samples if rng.random() < 0.8} or {samples[0]: 1}))
+            nxt = mutate1(rng, level)
+            while nxt in seen:
+                nxt = mutate1(rng, nxt)
+            seen.add(nxt)
+            level = nxt
+            cnt = max(4, cnt // rng.choice([2, 3, 10])) if rng.random() < 0.8 else cnt     # sometimes a tie between levels
+    elif kind == "alltie":
+        # abundance ties everywhere: no link at distance 1, links by position at distance > 1
+        c = rseq(rng, max(L, 4))
+        pool = [c]
+        k = rng.choice([1, 1, 5])
+        for _ in range(size + 1):
+            seqs.append((pool[-1], {x: k for x in samples}))
+            v = mutate1(rng, rng.choice(pool)) if rng.random() < 0.5 else mutate1(rng, mutate1(rng, rng.choice(pool)))
+            pool.append(v)
+    elif kind == "topchain":
+        # the most abundant sequences of the sample are variants of each other
+        c = rseq(rng, max(L, 5))
+        top = [c]
+        for _ in range(rng.randrange(1, 4)):
+            top.append(mutate1(rng, top[-1]))
+        cs = sorted((rng.choice([1000, 5000, 5000, 20000, 100000]) for _ in top), reverse=True)
+        for t, k in zip(top, cs):
+            seqs.append((t, {x: k for x in samples}))
+        for _ in range(size):
+            v = mutate1(rng, rng.choice(top)) if rng.random() < 0.6 else rseq(rng, len(c))
+            seqs.append((v, sample_counts(rng, samples, base=rng.choice([1, 2, 3]))))
     else:  # random families
         pool = [rseq(rng, L) for _ in range(rng.randrange(1, 4))]
         for p in pool:
@@ -123,11 +207,27 @@ def gen_dataset(rng, kind, size):
 
 
 def gen_case(rng, size, workers, reps):
-    kind = rng.choice(["star", "chain", "homopolymer", "ties", "random", "random"])
-    dist = rng.choice([1, 1, 1, 1, 2, 3])
-    ratio = rng.choice([1.0, 1.0, 0.5, 0.25, 0.75, 0.125, 0.1, 0.05])
-    return dict(kind=kind, seqs=gen_dataset(rng, kind, rng.randrange(1, size + 1)), dist=dist, ratio=ratio,
-                workers=workers, reps=reps, cli=rng.random() < 0.5, head=rng.random() < 0.2)
+    kind = rng.choice(["star", "chain", "homopolymer", "ties", "random", "random", "deepchain", "alltie", "topchain"])
+    dist = rng.choice([1, 1, 1, 1, 2, 3]) if kind != "alltie" else rng.choice([1, 2, 2, 3])
+    ratio = rng.choice(RATIOS)
+    c = dict(kind=kind, seqs=gen_dataset(rng, kind, rng.randrange(1, size + 1)), dist=dist, ratio=ratio,
+             workers=workers, reps=reps, cli=rng.random() < 0.5, head=rng.random() < 0.2)
+    if c["cli"] and rng.random() < 0.6:
+        add_arrivals(rng, c)
+    return c
+
+
+def add_arrivals(rng, c, n=3):
+    """deliver the data set to CLIOBIClean as batches arriving in n random orders (plus the reverse order)"""
+    b = rng.choice([1, 1, 2, 3, 5])
+    nb = (len(c["seqs"]) + b - 1) // b
+    arr = [list(range(nb))[::-1]]
+    for _ in range(n):
+        a = list(range(nb))
+        rng.shuffle(a)
+        arr.append(a)
+    c["batch"], c["arrivals"] = b, arr
+    return c
 
 
 def star_case(rng, L, workers, reps, nvar=None, dist=1, ratio=1.0, top=False, order=1):
@@ -156,6 +256,42 @@ def star_case(rng, L, workers, reps, nvar=None, dist=1, ratio=1.0, top=False, or
         seqs.append(dict(id="top", seq=c + "a", counts={"A": 100000}))
     return dict(kind="star%d" % order, seqs=seqs, dist=max(dist, order), ratio=ratio, workers=workers, reps=reps, cli=False, head=False,
                 procs=rng.choice([0, 0, 2, 4, 16]))      # GOMAXPROCS of the run (0: number of CPUs)
+
+
+def large_case(rng, workers, reps, ratio=1.0):
+    """one sample of at least 32 x max(workers) sequences (more than any block / stripe size derived from the number of
+    workers); the most abundant sequences are variants of each other (a chain at the END of the count-sorted slice), each
+    with low-count variants and variants of variants (weights flow over several levels), the rest unrelated sequences with
+    abundance ties everywhere"""
+    n = 32 * max(workers) + rng.randrange(3, 50)
+    L = 24
+    seen, seqs = set(), []
+
+    def fresh(f):
+        while True:
+            v = f()
+            if v not in seen:
+                seen.add(v)
+                return v
+    top = [fresh(lambda: rseq(rng, L))]
+    for _ in range(rng.choice([2, 3, 4])):
+        top.append(fresh(lambda: mutate1(rng, top[-1])))
+    cs = sorted(rng.sample(range(5000, 200000), len(top)), reverse=True)
+    if rng.random() < 0.3:
+        cs[1] = cs[0]                      # a tie at the very top
+    for t, k in zip(top, cs):
+        seqs.append((t, k))
+    for t in top:
+        lvl1 = [fresh(lambda: mutate1(rng, t)) for _ in range(rng.randrange(4, 20))]
+        for v in lvl1:
+            seqs.append((v, rng.choice([20, 50, 50, 100])))
+            for _ in range(rng.randrange(0, 4)):
+                seqs.append((fresh(lambda: mutate1(rng, v)), rng.choice([1, 1, 2, 3])))
+    while len(seqs) < n:
+        seqs.append((fresh(lambda: rseq(rng, L)), rng.choice([1, 1, 1, 2, 2, 3])))
+    rng.shuffle(seqs)
+    return dict(kind="large", seqs=[dict(id="L%d" % i, seq=x, counts={"A": k}) for i, (x, k) in enumerate(seqs)],
+                dist=1, ratio=ratio, workers=workers, reps=reps, cli=False, head=False)
 
 
 def exhaustive_case(rng, alphabet, maxlen, workers, reps, dist=1):
@@ -193,6 +329,27 @@ CORPUS = [
     dict(kind="corpus", seqs=[dict(id="a", seq="acgtacgtac", counts={"A": 10}), dict(id="b", seq="acctaggtac", counts={"A": 3}),
                               dict(id="c", seq="acgtacgtaa", counts={"A": 2}), dict(id="d", seq="aggtaccaac", counts={"A": 3})],
          dist=3, ratio=1.0, workers=[1, 2, 4], reps=2, cli=True, head=False),
+    # round 2: non-dyadic ratios exactly on / just off the boundary w_son / w_father = ratio (father weight = count + son's count)
+    dict(kind="corpus", seqs=[dict(id="f", seq="acgtacgt", counts={"A": 9, "B": 8, "C": 10}), dict(id="s", seq="acgtacct", counts={"A": 1, "B": 1, "C": 1})],
+         dist=1, ratio=0.1, workers=[1, 4], reps=1, cli=True, head=False),
+    dict(kind="corpus", seqs=[dict(id="f", seq="acgtacgt", counts={"A": 19, "B": 18, "C": 20}), dict(id="s", seq="acgtacct", counts={"A": 1, "B": 1, "C": 1})],
+         dist=1, ratio=0.05, workers=[1, 4], reps=1, cli=True, head=False),
+    dict(kind="corpus", seqs=[dict(id="f", seq="acgtacgt", counts={"A": 7, "B": 6, "C": 8}), dict(id="s", seq="acgtacct", counts={"A": 3, "B": 3, "C": 3})],
+         dist=1, ratio=0.3, workers=[1, 4], reps=1, cli=True, head=False),
+    dict(kind="corpus", seqs=[dict(id="f", seq="acgtacgt", counts={"A": 4, "B": 3, "C": 5}), dict(id="s", seq="acgtacct", counts={"A": 1, "B": 1, "C": 1})],
+         dist=1, ratio=0.2, workers=[1, 4], reps=1, cli=True, head=False),
+    # distance 2, ratio 0.7: 49/100 = 0.7^2 exactly, but math.Pow(0.7, 2) = 0.48999999999999994 < float(0.49): the code removes
+    # the link (the exact rational test would keep it): the described measure-zero set, oracle in float arithmetic only
+    dict(kind="corpus", seqs=[dict(id="f", seq="acgtacgtaa", counts={"A": 100, "B": 100}), dict(id="s", seq="acctaggtaa", counts={"A": 49, "B": 48})],
+         dist=2, ratio=0.7, workers=[1, 4], reps=1, cli=True, head=False),
+    dict(kind="corpus", seqs=[dict(id="f", seq="acgtacgtaa", counts={"A": 100, "B": 100}), dict(id="s", seq="acctaggtaa", counts={"A": 1, "B": 2})],
+         dist=2, ratio=0.1, workers=[1, 4], reps=1, cli=True, head=False),
+    # round 2: equally abundant sequences two substitutions apart, delivered to CLIOBIClean as two batches that arrive in
+    # either order (each batch keeps its order number): --distance 2 links ties by position in the loaded data set, so the
+    # result must not depend on the arrival order (Load must restore the batch order)
+    dict(kind="corpus", seqs=[dict(id="x", seq="aaaaaaaa", counts={"A": 1}), dict(id="y", seq="aaccaaaa", counts={"A": 1}),
+                              dict(id="z", seq="aaccaagg", counts={"A": 1})],
+         dist=2, ratio=1.0, workers=[1, 4], reps=1, cli=True, head=False, batch=1, arrivals=[[0, 1, 2], [2, 1, 0], [1, 0, 2], [1, 2, 0]]),
 ]
 
 
@@ -241,7 +398,7 @@ def round_div(num, den):
     return (2 * num + den) // (2 * den)
 
 
-def expected_sample(nodes, dist, ratio, ids=None):
+def expected_sample(nodes, dist, ratio, ids=None, info=None):
     """nodes: [(id, seq, count)] in data-set order -> dict id -> dict(count, weight, sons, status, edges{father_id: dist})
     the specification of the graph (dist 1: the property; dist > 1: the documented extension by LCS distance).
     ids: the order of the nodes in the implementation's sample slice, used when it is a count-sorted permutation of
@@ -282,9 +439,18 @@ def expected_sample(nodes, dist, ratio, ids=None):
                             edges[i][j] = al - l
                             sons[j] += 1
     if ratio < 1.0:
+        p, q = ratio_pq(ratio)
         for i in range(n):
             for j in list(edges[i]):
-                if not (w[i] / w[j] <= ratio ** edges[i][j]):
+                d = edges[i][j]
+                if info is not None:
+                    # where the float test and the exact rational test of the Coq model may differ: exact equality
+                    # w_son/w_father = (P/Q)^d with d >= 2 (math.Pow rounds), or weights beyond the proved bound
+                    if (d >= 2 and w[i] * q ** d == w[j] * p ** d) or w[j] * q > 2 ** 52:
+                        info["boundary"] = True
+                    if w[i] * q ** d == w[j] * p ** d:
+                        info["on_boundary"] = info.get("on_boundary", 0) + 1
+                if not (w[i] / w[j] <= go_pow(ratio, d)):
                     del edges[i][j]
                     sons[j] -= 1
     res = {}
@@ -388,7 +554,9 @@ def oracle(case, obs):
         rs = sorted({r["r"] for r in obs["runs"] if r["path"] == path})
         if len(rs) > 1:
             a, b = rs[0], rs[1]
-            bad.append(("schedule-dependent", dict(path=path, runs=[r for r in obs["runs"] if r["path"] == path],
+            base = {r["r"] for r in obs["runs"] if r["path"] == path and r["rep"] < 1000}
+            kind = "schedule-dependent" if len(base) > 1 else "arrival-order-dependent"
+            bad.append((kind, dict(path=path, runs=[r for r in obs["runs"] if r["path"] == path],
                                                    result_a=obs["distinct"][a], result_b=obs["distinct"][b])))
         for r in rs:
             why = check_result(case, obs["distinct"][r], path, orders)
@@ -403,9 +571,9 @@ def coq_terms(case, res):
     """one Gallina case per sample (dyadic ratio): canonical observation = nodes in stable count order
     (distance > 1: in the implementation's order when that is a count-sorted permutation, because the
     extension links tied sequences by position), father indices renamed accordingly, edges by increasing father"""
-    if case["ratio"] not in DYADIC or not res.get("graph"):
+    if not res.get("graph"):
         return []
-    p, q = DYADIC[case["ratio"]]
+    p, q = ratio_pq(case["ratio"])
     idx = {s["id"]: k for k, s in enumerate(case["seqs"])}
     terms = []
     for name, nodes in sorted(sample_nodes(case).items()):
@@ -413,6 +581,12 @@ def coq_terms(case, res):
         if g is None or sorted(x["id"] for x in g) != sorted(x[0] for x in nodes):
             continue
         gids = [x["id"] for x in g]
+        info = {}
+        expected_sample(nodes, case["dist"], case["ratio"], gids, info)
+        if info.get("boundary"):           # the described measure-zero set: left to the Python oracle (float arithmetic)
+            SKIPPED["boundary"] += 1
+            continue
+        SKIPPED["on_boundary_d1"] += info.get("on_boundary", 0)
         _, order = expected_sample(nodes, 1, 1.0, gids if case["dist"] > 1 else None)
         pos = {i: k for k, i in enumerate(order)}
         byid = {x["id"]: x for x in g}
@@ -429,7 +603,40 @@ def coq_terms(case, res):
     return terms
 
 
-IMPORTS = "From Coq Require Import ZArith NArith List. Import ListNotations. Open Scope Z_scope.\nFrom OBI.C13 Require Import Model."
+IMPORTS = "From Coq Require Import ZArith NArith List. Import ListNotations. Open Scope Z_scope.\nFrom OBI.C13 Require Import Model Model2."
+SKIPPED = dict(boundary=0, on_boundary_d1=0)
+ST = dict(i="SI", h="SH", s="SS")
+
+
+def ds_term(case, res):
+    """the whole data set (all samples) with the annotations CLIOBIClean wrote on every sequence -> one Gallina dcase"""
+    if case.get("head") or not res.get("annot") or len(case["seqs"]) > 60:
+        return None
+    ids = [x["id"] for x in case["seqs"]]
+    annot = {a["id"]: a for a in res["annot"]}
+    if len(set(ids)) != len(ids) or set(annot) != set(ids):
+        return None
+    for name, nodes in sample_nodes(case).items():
+        info = {}
+        expected_sample(nodes, case["dist"], case["ratio"], None, info)
+        if info.get("boundary"):
+            return None
+    samples = sorted({k for x in case["seqs"] for k in x["counts"]})
+    sidx = {k: i for i, k in enumerate(samples)}
+    idx = {i: k for k, i in enumerate(ids)}
+    p, q = ratio_pq(case["ratio"])
+    ds, obs = [], []
+    for x in case["seqs"]:
+        ds.append("mkd %d %s [%s]" % (idx[x["id"]], vlib.bytes_coq(x["seq"].encode()),
+                                      "; ".join("(%d, %d)" % (sidx[k], x["counts"][k]) for k in sorted(x["counts"]))))
+        a = annot[x["id"]]
+        if sorted(a["status"]) != sorted(x["counts"]) or sorted(a["weight"]) != sorted(x["counts"]) or any(f not in idx for f in a["mutation"]):
+            return None        # the direct oracle reports it
+        ent = "; ".join("(%d, %s, %d)" % (sidx[k], ST.get(a["status"][k], "SS"), a["weight"][k]) for k in sorted(a["status"]))
+        keys = "; ".join(str(idx[f]) for f in sorted(a["mutation"]))
+        obs.append("mkoa [%s] [%s] (mkf %s (%d) (%d) (%d) (%d))" % (ent, keys, "true" if a["head"] else "false", a["headcount"],
+                                                                    a["internalcount"], a["singletoncount"], a["samplecount"]))
+    return "mkdcase [%s] %d %d %d [%s]" % ("; ".join(ds), case["dist"], p, q, "; ".join(obs))
 
 
 # ----------------------------------------------------------------------------- race detector
@@ -492,7 +699,7 @@ def cli_drive(ctx, cases, obs, broken, max_cases):
         ref = [o["distinct"][r["r"]] for r in o["runs"] if r["path"] == "cli"]
         if not ref or ref[0].get("panic"):
             continue
-        want = [{k: v for k, v in a.items()} for a in ref[0]["annot"]]
+        want = [{k: v for k, v in a.items() if k != "getters"} for a in ref[0]["annot"]]
         n += 1
         fa = os.path.join(wd, "in.fasta")
         with open(fa, "w") as f:
@@ -522,8 +729,17 @@ def cli_drive(ctx, cases, obs, broken, max_cases):
 
 
 # ----------------------------------------------------------------------------- main
+GETTERS = dict(seen=0, disagree=0)
+TIMES = {}
+DS = dict(n=0, load=0)
+
+
 def evaluate(ctx, cases, broken, label, corr=True, timeout=None):
+    import time
+    t0 = time.time()
     obs = ctx.vh_robust("c13", cases, timeout=timeout or (240 if ctx.quick else 1500), one_timeout=60)
+    TIMES[label + "_harness_s"] = round(time.time() - t0, 1)
+    t0 = time.time()
     nviol = 0
     for i, (c, o) in enumerate(zip(cases, obs)):
         bad = oracle(c, o)
@@ -532,6 +748,8 @@ def evaluate(ctx, cases, broken, label, corr=True, timeout=None):
             if nviol <= 3:
                 ctx.violation("%s_%s_%d" % (label, kind, i), dict(property="C13", kind=kind, case=c, detail=detail))
     mism = []
+    TIMES[label + "_oracle_s"] = round(time.time() - t0, 1)
+    t0 = time.time()
     if corr:
         # head flag and counts written by CLIOBIClean vs the model's annotate
         aterms = []
@@ -549,9 +767,55 @@ def evaluate(ctx, cases, broken, label, corr=True, timeout=None):
                 broken.append(dict(kind="correspondence", detail=aerr))
             elif abad:
                 broken.append(dict(kind="correspondence", name="corr:C13/head-flags", first_diverging_case=aterms[abad[0]], n_diverging=len(abad)))
+        # the whole data set: split by sample, union of the annotations over the samples (Model2.annots)
+        dterms, downer = [], []
+        for i, (c, o) in enumerate(zip(cases, obs)):
+            if o.get("kind") != "ok" or len(dterms) >= (40 if ctx.quick else 300):
+                continue
+            for r in sorted({r["r"] for r in o["runs"] if r["path"] == "cli"})[:1]:
+                t = ds_term(c, o["distinct"][r])
+                if t:
+                    dterms.append(t)
+                    downer.append(i)
+                for a in o["distinct"][r].get("annot") or []:
+                    if a.get("getters") is not None:
+                        GETTERS["seen"] += 1
+                        if a["getters"] != [a["headcount"], a["internalcount"], a["singletoncount"]]:
+                            GETTERS["disagree"] += 1
+        # obiiter.Load under the arrival histories: the order of the loaded data set vs Model2.load
+        lterms = []
+        for c, o in zip(cases, obs):
+            if o.get("kind") != "ok" or not c.get("arrivals") or c.get("head"):
+                continue
+            idx = {x["id"]: k for k, x in enumerate(c["seqs"])}
+            b = c["batch"]
+            for run in o["runs"]:
+                if run["path"] == "cli" and run["rep"] >= 1000:
+                    order = run.get("order")
+                    if order is None or any(i not in idx for i in order):
+                        continue
+                    arr = c["arrivals"][run["rep"] - 1000]
+                    lterms.append("mklcase [%s] [%s]" % (
+                        "; ".join("(%d, [%s])" % (k, "; ".join(str(j) for j in range(k * b, min(len(c["seqs"]), (k + 1) * b)))) for k in arr),
+                        "; ".join(str(idx[i]) for i in order)))
+        DS["load"] += len(lterms)
+        if lterms:
+            lbad, lerr = ctx.correspond(label + "_load", IMPORTS, lterms, fn="mismatches_load", shard=400)
+            if lbad is None:
+                broken.append(dict(kind="correspondence", detail=lerr))
+            elif lbad:
+                broken.append(dict(kind="correspondence", name="corr:C13/load-order", first_diverging_case=lterms[lbad[0]], n_diverging=len(lbad)))
+        DS["n"] += len(dterms)
+        if dterms:
+            dbad, derr = ctx.correspond(label + "_dataset", IMPORTS, dterms, fn="mismatches_ds", shard=8)
+            if dbad is None:
+                broken.append(dict(kind="correspondence", detail=derr))
+            elif dbad:
+                broken.append(dict(kind="correspondence", name="corr:C13/dataset-annotations", first_diverging_case=cases[downer[dbad[0]]],
+                                   n_diverging=len(dbad)))
         terms, owner = [], []
         for i, (c, o) in enumerate(zip(cases, obs)):
-            if o.get("kind") != "ok":
+            if o.get("kind") != "ok" or max(len(v) for v in sample_nodes(c).values()) > 80:
                 continue
             rs = sorted({r["r"] for r in o["runs"] if r["path"] == "graph"})
             for r in rs[:2]:
@@ -564,6 +828,7 @@ def evaluate(ctx, cases, broken, label, corr=True, timeout=None):
                 broken.append(dict(kind="correspondence", detail=err))
             else:
                 mism = sorted({owner[k] for k in bad})
+    TIMES[label + "_coq_s"] = round(time.time() - t0, 1)
     return obs, mism
 
 
@@ -581,6 +846,10 @@ def run(ctx, broken):
                                ratio=rng.choice([1.0, 0.5]), dist=rng.choice([1, 1, 2])))
     for k in range(2 if quick else 20):
         cases.append(star_case(rng, 24, [32, 8, 1], 6 if quick else 30, nvar=40, order=2, dist=rng.choice([2, 3])))
+    # round 2: the same lost-update search in the pool of extendSimilarityGraph: many short tied double variants of one centre,
+    # every row goes through the second pool and increments the centre and the later variants (high contention at distance 2)
+    for L, nv in ([(10, 120), (8, 200)] if quick else [(10, 120), (8, 200), (12, 300)] * 5):
+        cases.append(star_case(rng, L, [32, 8, 1], 10 if quick else 30, nvar=nv, order=2, dist=2))
     # exhaustive small scopes: every sequence over a small alphabet up to a length, all in one sample
     cases.append(exhaustive_case(rng, "ac", 4, [1, 4], 1))
     cases.append(exhaustive_case(rng, "ac", 3, [1, 4], 1, dist=2))
@@ -588,7 +857,25 @@ def run(ctx, broken):
         cases.append(exhaustive_case(rng, "acg", 4, [1, 8], 2))
         cases.append(exhaustive_case(rng, "ac", 6, [1, 8], 2))
         cases.append(exhaustive_case(rng, "acgt", 3, [1, 8], 2, dist=2))
+    # large samples (>= 32 x workers sequences), the most abundant sequences being variants of each other
+    cases.append(large_case(rng, [8, 5, 2, 1], 1))
+    cases.append(large_case(rng, [10, 9, 4, 1], 1, ratio=0.5))
+    cases.append(large_case(rng, [32, 1], 2))
+    if not quick:
+        for k in range(12):
+            cases.append(large_case(rng, rng.sample([2, 3, 4, 5, 7, 8, 9, 10, 13, 16], 3) + [1], 2, ratio=rng.choice([1.0, 0.5, 0.1])))
+        cases.append(large_case(rng, [32, 16, 1], 3))
     obs, mism = evaluate(ctx, cases, broken, "main")
+    ctx.cov["dataset_level_cases_vs_model"] = DS["n"]
+    ctx.cov["load_arrival_histories_vs_model"] = DS["load"]
+    ctx.cov["ratio_boundary_samples_left_to_float_oracle"] = SKIPPED["boundary"]
+    ctx.cov["edges_exactly_on_ratio_boundary_checked_vs_model"] = SKIPPED["on_boundary_d1"]
+    ctx.cov["dead_getters_HeadCount_InternalCount_SingletonCount"] = dict(
+        sequences=GETTERS["seen"], disagree_with_written_annotation=GETTERS["disagree"],
+        note="exported getters of package obiclean called nowhere in the code base: they convert the zero local instead of the stored "
+             "value (always 0) and SingletonCount reads obiclean_samplecount; the annotations written by annotateOBIClean are computed "
+             "from local counters and are exact (model + oracle); informative, not a violation of C13")
+    ctx.cov["arrival_histories"] = sum(len(c.get("arrivals") or []) for c in cases)
     ctx.cov["evaluations"] = sum(len(o.get("runs", [])) for o in obs)
     ctx.cov["exhaustive"] = "all ordered pairs of sequences over {a,c} up to length %d%s as one sample (edges, statuses, weights)" % (
         4 if quick else 6, "" if quick else ", over {a,c,g} up to length 4, over {a,c,g,t} up to length 3 (distance 2)")
@@ -604,14 +891,16 @@ def run(ctx, broken):
         k = "%s/d%d/r%s/%s" % (c["kind"], c["dist"], c["ratio"], "edges" if ne else "noedge")
         dist[k] = dist.get(k, 0) + 1
     ctx.cov["distinct_nontrivial"] = len(nontrivial)
-    ctx.cov["rule"] = ("data sets: stars, chains, homopolymer indel families, abundance ties, random families over 1-3 samples; "
-                       "distance 1..3, ratio 1/0.5/0.25/0.75/0.125/0.1/0.05; each built with several worker counts in 1..32 x repetitions "
+    ctx.cov["rule"] = ("data sets: stars, chains, deep chains with leaves, homopolymer indel families, abundance ties (also all counts equal), "
+                       "most abundant sequences variants of each other, large samples (>= 32 x workers sequences), random families over 1-3 samples; "
+                       "distance 1..3, ratio 1/0.5/0.25/0.75/0.125/0.1/0.05/0.2/0.3/0.7 (all in the Coq correspondence); batch arrival histories; each built with several worker counts in 1..32 x repetitions "
                        "through the hook and CLIOBIClean; evaluations = graph builds; non-trivial = the graph has at least one edge; "
                        "distinct = distinct (data set, distance, ratio)")
     ctx.cov["distribution"] = dist
     ctx.cov["worker_counts"] = wl
     ctx.samples = [dict(case=c, result=(o["distinct"][0] if o.get("distinct") else o)) for c, o in list(zip(cases, obs))[:2]]
     ctx.cov["model_vs_impl_mismatches"] = len(mism)
+    ctx.cov["phase_times"] = TIMES
 
     # the race detector decides inc_kind: a report on obiclean state contradicts Atomic
     rb, err = ctx.build_harness(race=True)
